@@ -182,7 +182,45 @@ struct Fin {
 			}
 			default: break;
 		}
+		if((in.head(11) % 4U) == 0) { narrower_reinterpret(v, m, src, std::bool_constant<ro>{}); return; }  // one case in four of the type-specific share
 		type_specific(v, m, proj / 6U, src, mutate_all, std::bool_constant<ro>{});
+	}
+
+	// reinterpret_array_cast<U>() with sizeof(U) dividing sizeof(T): every element is reinterpreted in place, i.e. the projected element is the U at the start of the
+	// source element (int -> short, S -> int (= S::a), complex<double> -> double (= the real part)); extents and index ranges are kept; all three value-category overloads.
+	// For a read-only 1-D view the cast also keeps an index range that does not start at zero (the overload that carries the layout offset over).
+	template<class V, class Src, bool RO>
+	void narrower_reinterpret(V& v, Model const& m, Src&& src, std::bool_constant<RO>) {
+		constexpr int D = vp::rank_of<V>;
+#if VP_C12_T == 0
+		using U = short; char const* const un = "short";
+#elif VP_C12_T == 1
+		using U = int; char const* const un = "int";
+#else
+		using U = double; char const* const un = "double";
+#endif
+		static_assert(sizeof(T) % sizeof(U) == 0 && sizeof(U) < sizeof(T));
+		ctx.desc << " ; reinterpret_array_cast<" << un << ">()"; ctx.label("reinterpret_narrower_element");
+		auto chk = [&](auto&& pv, Model const& mm, char const* what) {
+			check_projection(pv, mm, [&](long const* o) { U u; std::memcpy(&u, &src(o), sizeof u); return u; }, what);
+			if(!mm.empty()) {
+				long o[D] = {}; long idx[D];
+				do { for(int k = 0; k < D; ++k) { idx[k] = mm.d[static_cast<std::size_t>(k)].first + o[k]; }
+					VP_CHECK(static_cast<void const*>(address_at(pv, idx)) == static_cast<void const*>(&src(o)), "proj/identity", what << ": the reinterpreted element does not start at the source element");
+				} while(vp::next_ord(mm, o));
+			}
+		};
+		chk(std::as_const(v).template reinterpret_array_cast<U>(), m, "reinterpret_array_cast<narrower> const&");
+		if constexpr(!RO) { chk(v.template reinterpret_array_cast<U>(), m, "reinterpret_array_cast<narrower> &"); chk(v().template reinterpret_array_cast<U>(), m, "reinterpret_array_cast<narrower> &&"); }
+		if constexpr(D == 1) {
+			if(!m.empty()) {
+				long const nb = 1 + static_cast<long>(in.head(11) / 4U) % 5;  // 1..5
+				Model mb = m; mb.d[0].first = nb;
+				auto&& rb = std::as_const(v).reindexed(static_cast<multi::index>(nb));
+				ctx.desc << " ; as_const(v).reindexed(" << nb << ").reinterpret_array_cast<" << un << ">()"; ctx.label("reinterpret_narrower_rebased_1d");
+				chk(rb.template reinterpret_array_cast<U>(), mb, "reinterpret_array_cast<narrower> of a re-based read-only 1-D view");
+			}
+		}
 	}
 
 #if VP_C12_T == 0
